@@ -81,6 +81,8 @@ struct ReplyWorld : World {
 		       "\"stub (layer L2)\":[\"connection assembled by the harness as mpt_connection_open does after mpt_connect; out._idlen written directly\",\"descriptor pair: simulated pipes of capacity 5..4096\"],"
 		       "\"real (layer L3)\":[\"mpt_output_remote object through its input/object/output interfaces: remoteNext, remoteDispatch (mpt_connection_dispatch datagram path), remotePush, remoteAwait, remoteSync, mpt_connection_assign, mpt_outdata_push/recv/reply\"],"
 		       "\"stub (layer L3)\":[\"connected datagram socket pair behind recvmsg/sendmsg/sendto/poll/dup/getsockopt; delivery order, loss and duplication decided by the plan\",\"out._idlen written directly through the layout of the private out_data\"],"
+		       "\"real (layer L4)\":[\"C++ io::stream::input: await, push, sync, next, dispatch (dispatch::process), command::array reserve/handler\",\"responder: connection as in L2\"],"
+		       "\"stub (layer L4)\":[\"io::stream attached to the simulated descriptor through mpt_stream_dopen on its stream member; _idlen written directly (set_property refuses the name idlen)\"],"
 		       "\"stub\":[\"transport = send callback accepting or rejecting per plan\",\"allocator (ledger + n-th allocation fails)\",\"per-request bookkeeping (accepted at most once, id, reply mark)\"]}";
 	}
 	void gen(Rng &r, Plan &p, int tier) override {
